@@ -458,6 +458,12 @@ def api_calls(ctx):
         fit_call("DataArray", flt, expect, X, "time", n_modes=nm)
     for sv, expect in (("auto", "result"), ("full", "result"), ("randomized", "result"), ("arpack", "error"), ("", "error"), ("Full", "error")):
         fit_call("DataArray", ("valid:solver=%r" if expect == "result" else "solver=%r") % sv, expect, X, "time", solver=sv)
+    # more modes than the rank on every solver path (exact, randomized, and the default policy on data with >= 500 columns)
+    for sv in ("full", "randomized", "auto"):
+        fit_call("DataArray", "n_modes=%d > rank:solver=%r" % (rank + 1, sv), "error", X, "time", n_modes=rank + 1, solver=sv)
+        fit_call("DataArray", "valid:n_modes=rank:solver=%r" % sv, "result", X, "time", n_modes=rank, solver=sv)
+    Xwide = mk(rng, sizes=(510,), names=("x",))
+    fit_call("DataArray:510-features", "n_modes=%d > rank:default-solver" % (Xwide.sizes["time"] + 3), "error", Xwide, "time", n_modes=Xwide.sizes["time"] + 3)
     fit_call("DataArray", "valid:center=False", "result", X, "time", center=False)
     fit_call("DataArray", "unknown-sample-dim:center=False", "error", X, "nope", center=False)
 
